@@ -56,7 +56,7 @@ RULES = [
     (r"neuropixel:NP2Converter\._writemetadata_lf:(arith|const):L76[01]", "gap-closed", "acquired counts of the LF metas (C12 `lfp:meta-channels:acquired-or-subset`)"),
     (r"neuropixel:NP2Reconstructor\.__init__:kwdrop:", "equivalent", "mkdir of a folder that does not exist yet, parent present"),
     (r"neuropixel:NP2Reconstructor\.(process|_prepare_files|_get_chans):const:", "equivalent", "[0] vs [-1] on equal entries / unreachable early return"),
-    (r"neuropixel:NP2Reconstructor\._prepare_files:kwdrop:.*sort=", "untriaged", "shank files read sorted instead of unsorted: re-run against the current C03"),
+    (r"neuropixel:NP2Reconstructor\._prepare_files:kwdrop:.*sort=", "equivalent", "the reconstructor reads the shank files through the raw memmap (sr._raw), which the sort flag does not touch"),
     (r"neuropixel:NP2Reconstructor\.write_metadata:", "equivalent", "an existing metadata file with the right size is kept - it is the original's"),
     # ---- voltage
     (r"voltage:agc:(arith|const):L(37|41)", "equivalent", "another window length / whitening constant: data x gain is still the input"),
